@@ -5,6 +5,9 @@
  * DESIGN.md section 2): which of the NF descriptors are ready in the batch, the one-shot bit of the first source,
  * descending/ascending report order. */
 #include "l2.h"
+#ifndef VF_HUP
+#define VF_HUP 0
+#endif
 #ifndef NF
 #define NF 2
 #endif
@@ -44,7 +47,9 @@ int vf_main(void) {
 #else
         ready[i] = nondet_bool();
 #endif
-        vf_fds[fds[i]].ready = ready[i]; nready += ready[i]; }
+        vf_fds[fds[i]].ready = ready[i]; nready += ready[i];
+        vf_fds[fds[i]].hup = VF_HUP;         /* readable because the peer wrote and closed: still an event for the owner */
+    }
     r = m_ctx_dispatch();
     VF_CHECK(r == nready, "dispatch reports every ready source of the batch");
     VF_CHECK(vf_nlog[0] == nready, "no event of the batch is dropped whatever errno the handler left");
